@@ -72,6 +72,12 @@ class Unit:
                 return INT_NAMES[n]
             if n == "bool":
                 return BOOL
+            if n == "()":
+                return UNIT
+            if n in self.structs and (n == "Self" or "canon" in self.structs[n]):
+                # C16: a unit whose `Self` is an opaque struct (not the field element newtype); several Rust
+                # spellings (`Self`, `Assertion<E>`, `Assertion`) share one canonical struct name
+                return ("struct", self.structs[n].get("canon", n), self.structs[n]["gtype"])
             if n in ("Self", self.elem_name, "Self::BaseField"):
                 return ELEM
             if n == "Self::PositiveInteger":
@@ -189,6 +195,13 @@ class FnTr:
             g, t = self.expr(e[1], env)
             if t == ELEM and e[2] == "0":
                 return g, self.u.elem_inner
+            if t[0] == "struct":
+                # C16: named field of an opaque struct, resolved through the unit's accessor table
+                acc = self.u.structs[t[1]].get("fields", {}).get(e[2])
+                if acc is None:
+                    raise Unsupported(f"field .{e[2]} of struct {t[1]}")
+                rt = acc[1] if not isinstance(acc[1], str) else self.u.rtype(("name", acc[1]))
+                return ("app", acc[0], [g]), rt
             if t[0] == "tuple" and e[2].isdigit():
                 i = int(e[2])
                 n = len(t[1])
@@ -218,7 +231,33 @@ class FnTr:
         if k == "block":
             return self.block_value(e, env, expect)
         if k == "macro":
+            vk = [k for k in self.u.structs if k.startswith("Vec<")]
+            if e[1] == "vec" and vk and all(a[0] != "str" for a in e[2]):
+                # C16: vec![a, b, ..] of an opaque vector represented by its length
+                for a in e[2]:
+                    self.expr(a, env, None)
+                return z(len(e[2])), self.u.rtype(("name", vk[0]))
             raise Unsupported(f"macro {e[1]}!")
+        if k == "structlit":
+            # C16: `Name { f1, f2: e, .. }` of an opaque struct with a declared constructor
+            sd = self.u.structs.get(e[1])
+            if sd is None or "ctor" not in sd:
+                raise Unsupported(f"struct literal {e[1]}")
+            cname, order = sd["ctor"]
+            given = dict(e[2])
+            if sorted(given) != sorted(order):
+                raise Unsupported(f"struct literal {e[1]}: fields {sorted(given)}")
+            gs = []
+            for f in order:
+                acc = sd["fields"][f]
+                ft = acc[1] if not isinstance(acc[1], str) else self.u.rtype(("name", acc[1]))
+                g, t = self.expr(given[f], env, ft)
+                if t == LIT:
+                    t = ft
+                if t != ft:
+                    raise Unsupported(f"struct literal field {f}: {t} vs {ft}")
+                gs.append(g)
+            return ("app", cname, gs), ("struct", e[1], sd["gtype"])
         raise Unsupported(f"expression {k}")
 
     def proj(self, g, i, n):
@@ -416,6 +455,18 @@ class FnTr:
             g, t = self.expr(args[0], env, inner)
             return ("some", g), ("option", t)
         if name == "Err":
+            if getattr(self.u, "err_payload", False):
+                # C16: the error value is built before it is returned: its checked operations can panic
+                def payload(a):
+                    if a[0] == "call" and a[1][0] == "path" and a[1][1].split("::")[-1][:1].isupper() \
+                            and a[1][1] not in self.u.free:
+                        return [x for b in a[2] for x in payload(b)]
+                    if a[0] == "str":
+                        return []
+                    return [self.expr(a, env, None)[0]]
+                gs = [x for a in args for x in payload(a)]
+                if any(ok_of(x, self.u.okfns) != TRUE for x in gs):
+                    return ("let", "_", ("tuple", gs), ("none",)), expect if expect else ("option", None)
             return ("none",), expect if expect else ("option", None)
         if name in ("cmp::min", "cmp::max", "core::cmp::min", "core::cmp::max") and len(args) == 2:
             ga, ta = self.expr(args[0], env, expect)
@@ -481,6 +532,11 @@ class FnTr:
             raise Unsupported("method on untyped literal")
         if t[0] == "struct":
             acc = self.u.structs[t[1]]["methods"].get(name)
+            if acc is None and self.u.structs[t[1]].get("translated") and name in self.u.methods:
+                # C16: a method of the struct that this unit has itself translated
+                sig = self.u.methods[name]
+                gs = self.args(sig, args, env, skip_self=True)
+                return self.apply(sig, [g] + gs), sig.ret
             if acc is None or args:
                 raise Unsupported(f"accessor {name} on struct {t[1]}")
             rt = acc[1] if not isinstance(acc[1], str) else self.u.rtype(("name", acc[1]))
@@ -531,6 +587,9 @@ class FnTr:
             if name == "saturating_sub" and t[0] == "u":
                 gb, tb = self.expr(args[0], env, t)
                 return ("app", "Z.max", [z(0), ("app", "Z.sub", [g, gb])]), t
+            if name == "saturating_add" and t[0] == "u":   # C12
+                gb, tb = self.expr(args[0], env, t)
+                return ("app", "Z.min", [z(2 ** n - 1), ("app", "Z.add", [g, gb])]), t
             if name in ("overflowing_add", "overflowing_sub") and t[0] == "u":
                 gb, tb = self.expr(args[0], env, t)
                 return ("app", "ovf_add" if name.endswith("add") else "ovf_sub", [z(n), g, gb]), ("tuple", [t, BOOL])
@@ -768,6 +827,17 @@ class FnTr:
             e = s[1]
             if e[0] == "if":
                 return self.stmt_if(e, rest, env, mode, opt)
+            if e[0] == "call" and e[1][0] == "path" and e[1][1] in self.u.free and self.u.free[e[1][1]].ret == UNIT:
+                # C16: `helper(args);` whose only effect is its asserts: keep the call so that <fn>_ok includes helper_ok
+                g, _ = self.expr(e, env, UNIT)
+                return ("let", "_", g, cont(env))
+            if (e[0] == "mcall" and e[2] == "unwrap_or_else" and len(e[3]) == 1 and e[3][0][0] == "closure"
+                    and self.is_panic_body(e[3][0][2])):
+                # C16: `opt.unwrap_or_else(|_| panic!(..));` at statement position = assert!(opt.is_some())
+                g, t = self.expr(e[1], env, None)
+                if t[0] != "option":
+                    raise Unsupported("unwrap_or_else on non-option")
+                return ("assert", ("app", "opt_is_some", [g]), cont(env))
             raise Unsupported(f"expression statement {e[0]}")
 
         if k == "for":
@@ -775,6 +845,22 @@ class FnTr:
         if k == "while":
             return self.stmt_while(s, rest, env, mode, opt)
         raise Unsupported("statement " + k)
+
+    def is_panic_body(self, b):
+        while b[0] == "block" and len(b[1]) == 1 and b[1][0][0] in ("tail", "expr"):
+            b = b[1][0][1]
+        return b[0] == "macro" and b[1] == "panic"
+
+    def contains_return(self, node):
+        if isinstance(node, tuple):
+            if node and node[0] == "return":
+                return True
+            if node and node[0] == "closure":
+                return False
+            return any(self.contains_return(x) for x in node)
+        if isinstance(node, list):
+            return any(self.contains_return(x) for x in node)
+        return False
 
     def tail_if(self, e, env, mode, opt):
         c, _ = self.expr(e[1], env, BOOL)
@@ -800,6 +886,26 @@ class FnTr:
             if else_b and len(else_stmts) == 1 and else_stmts[0][0] == "tail" and else_stmts[0][1][0] == "if":
                 else_stmts = [("expr", else_stmts[0][1])]
             ge = self.stmts(list(else_stmts) + list(rest), env.copy(), mode, opt)
+            return ("if", c, gt, ge)
+        if (self.contains_return(then_b) or (else_b and self.contains_return(else_b))) and not self.has_while(e):
+            # C16: a `return` nested deeper in a branch: duplicate the continuation into both branches
+            def untail(stmts):
+                stmts = list(stmts)
+                if stmts and stmts[-1][0] == "tail" and rest:
+                    if stmts[-1][1][0] != "if":
+                        raise Unsupported("value-producing branch before further statements")
+                    stmts[-1] = ("expr", stmts[-1][1])
+                return stmts
+            declared = set()
+            for b in (then_b, else_b):
+                if b:
+                    for st in b[1]:
+                        if st[0] == "let":
+                            self.pat_names(st[1], declared)
+            if declared & set(env.vars):
+                raise Unsupported("branch with nested return shadows an outer variable")
+            gt = self.stmts(untail(then_b[1]) + list(rest), env.copy(), mode, opt)
+            ge = self.stmts(untail(else_b[1] if else_b else []) + list(rest), env.copy(), mode, opt)
             return ("if", c, gt, ge)
         names = []
         self.assigned(then_b, names)
